@@ -7,7 +7,7 @@
    rejected (Props/C10.v), and the inputs that used to crash no longer do (in the model; the
    implementation is run on the same inputs on every check). *)
 From JS Require Import Base Bytes Scanner ScanRun Directive Core Entry C01Proofs ScanTotal StackSafe.
-From JS Require Import Expand Catalog CatalogTotal ExpandPlaced.
+From JS Require Import Expand Catalog CatalogTotal ExpandPlaced ScanPlaced.
 From JS Require ScannerProg.
 From JS Require IncludeName Inventory InventoryExpected.
 
@@ -63,6 +63,29 @@ Theorem C01_catalog_builder_is_total_after_expansion :
     forall pn, add_all read_body banned fuel' c (ex_forest ex) <> CPanic pn.
 Proof. exact catalog_builder_is_total_after_expansion. Qed.
 
+(* the premise of the two theorems above is met by EVERY forest the directive layer produces:
+   for every scanner program, file system, oracle, root file and fuel, the scanned forest is
+   nested as the (regenerated) context table prescribes, hence MACRO occurs only at the top level *)
+Theorem C01_scanned_forest_is_well_nested :
+  forall prog nl_cond ws_cond fs olen init_st fuel rn rc st,
+    scan_project prog nl_cond ws_cond fs olen init_st fuel (initial_cstate init_st rn rc) = SDone st ->
+    forallb (placedS None) (cs_forest st) = true /\ macros_only_on_top (cs_forest st).
+Proof. intros; split; [eapply scanned_forest_is_nested|eapply scanned_forest_has_macros_only_on_top]; eassumption. Qed.
+
+(* composed: scanning, then expansion, then the catalog builder - no panic of the builder for
+   any project (whatever the files contain), with no premise on the forest left *)
+Theorem C01_catalog_builder_is_total_on_every_scanned_project :
+  forall prog nl_cond ws_cond fs olen init_st fuel rn rc st enum_check read_body banned fuel1 fuel2 ex c,
+    scan_project prog nl_cond ws_cond fs olen init_st fuel (initial_cstate init_st rn rc) = SDone st ->
+    compile_macros enum_check fuel1 (cs_forest st) = XOk ex ->
+    forallb (placed None) (ex_forest ex) = true /\
+    forall pn, add_all read_body banned fuel2 c (ex_forest ex) <> CPanic pn.
+Proof.
+  intros prog nl_cond ws_cond fs olen init_st fuel rn rc st enum_check read_body banned fuel1 fuel2 ex c S X.
+  pose proof (scanned_forest_has_macros_only_on_top _ _ _ _ _ _ _ _ _ _ S) as M.
+  split; [exact (expanded_forest_is_placed _ _ _ _ M X)|exact (catalog_builder_is_total_after_expansion _ _ _ _ _ _ _ c M X)].
+Qed.
+
 Theorem C01_no_nil_current_directive :
   forall st l, core_next st l <> CPanic CPNilCurrentDirective.
 Proof. exact core_next_never_nil_directive. Qed.
@@ -81,6 +104,8 @@ Print Assumptions C01_scanner_never_pops_an_empty_stack.
 Print Assumptions C01_catalog_builder_never_reaches_an_impossible_state.
 Print Assumptions C01_expanded_forest_is_well_nested.
 Print Assumptions C01_catalog_builder_is_total_after_expansion.
+Print Assumptions C01_scanned_forest_is_well_nested.
+Print Assumptions C01_catalog_builder_is_total_on_every_scanned_project.
 Print Assumptions C01_no_nil_current_directive.
 Print Assumptions C01_include_validation_total.
 Print Assumptions C01_repaired_crashes_stay_repaired.
